@@ -204,6 +204,11 @@ def validate_trace(trace_module, cfg, trace_path, name, timeout=1800, env_extra=
     if env_extra:
         env.update(env_extra)
     r = run_tlc(trace_module, cfg, name, workers=1, env_extra=env, timeout=timeout, deque=True, xmx=xmx)
+    if not r.ok and "Error:" not in (r.out or "") and "Error:" not in (r.error_text or ""):
+        # the JVM went away without TLC reporting anything (killed under memory pressure next to many other JVMs): once more, alone
+        log("trace validation of %s ended without a TLC verdict; retrying once" % os.path.basename(trace_path))
+        time.sleep(5)
+        r = run_tlc(trace_module, cfg, name + "-retry", workers=1, env_extra=env, timeout=timeout, deque=True, xmx=xmx)
     if not r.ok:
         log(r.error_text[:1500])
         raise ToolError("trace validation run failed (%s on %s)" % (trace_module, trace_path))
